@@ -21,7 +21,8 @@ import KdVerif.Gen.Consts
 namespace KdVerif.TracePipeline
 open KdVerif.Trace KdVerif.Filters KdVerif.Declared
 
-/-- A version-2 dump as the parser sees it: the thread map of the header and the event records. -/
+/-- A dump as the parser sees it: the thread map (version 2: of the header; version 3: of the thread-map chunk) and the
+    event records (version 3: of all chunks, in file order). -/
 structure Dump where
   threadMap : ThreadMap
   events : List Kevent
